@@ -194,6 +194,13 @@ static void pf_write_leading_zeroes(
     }
 }
 
+// "The result of converting a zero value with a precision of zero is no
+// characters."
+static bool pf_no_digits(const PFFormatSpecifier fmt, const uintmax_t u)
+{
+    return u == 0 && fmt.precision.option == PF_SOME && fmt.precision.width == 0;
+}
+
 static unsigned pf_write_i(
     struct pf_string* out,
     struct pf_misc_data* md,
@@ -256,7 +263,7 @@ static unsigned pf_write_i(
         md->has_sign = true;
     }
 
-    const unsigned max_written = pf_utoa(
+    const unsigned max_written = pf_no_digits(fmt, i) ? 0 : pf_utoa(
         pf_capacity_left(*out), out->data + out->length,
         i < 0 ? -(uintmax_t)i : (uintmax_t)i); // imaxabs(INTMAX_MIN) is undefined
 
@@ -279,7 +286,8 @@ static unsigned pf_write_o(
         zero_written = true;
     }
 
-    const unsigned max_written = pf_otoa(
+    // '#' forces a leading zero, so "%#.0o" of 0 still prints "0"
+    const unsigned max_written = pf_no_digits(fmt, u) && ! fmt.flag.hash ? 0 : pf_otoa(
         pf_capacity_left(*out), out->data + out->length, u);
 
     // zero_written tells pad_zeroes() to add 1 less '0'
@@ -305,7 +313,7 @@ static unsigned pf_write_x(
         md->has_0x = true;
     }
 
-    const unsigned max_written = pf_xtoa(
+    const unsigned max_written = pf_no_digits(fmt, u) ? 0 : pf_xtoa(
         pf_capacity_left(*out), out->data + out->length, u);
 
     pf_write_leading_zeroes(out, max_written, fmt);
@@ -327,7 +335,7 @@ static unsigned pf_write_X(
         md->has_0x = true;
     }
 
-    const unsigned max_written = pf_Xtoa(
+    const unsigned max_written = pf_no_digits(fmt, u) ? 0 : pf_Xtoa(
         pf_capacity_left(*out), out->data + out->length, u);
 
     pf_write_leading_zeroes(out, max_written, fmt);
@@ -341,7 +349,7 @@ static unsigned pf_write_u(
 {
     const size_t original_length = out->length;
     const uintmax_t u = pf_get_uint(args, fmt);
-    const unsigned max_written = pf_utoa(
+    const unsigned max_written = pf_no_digits(fmt, u) ? 0 : pf_utoa(
         pf_capacity_left(*out), out->data + out->length, u);
     pf_write_leading_zeroes(out, max_written, fmt);
     return out->length - original_length;
